@@ -584,3 +584,31 @@ def r_dirname_once(P, chk):
             chk.violation(rid, "dirname:twice:%s" % k, main.where(c), "main calls dirname(%s) at line %d although line %d already did: on "
                           "glibc the first call truncated the string, so this one returns the parent of the input's directory and "
                           "assets next to the input file are not found" % (k, c["l"], d["l"]))
+
+
+def r_optorder(P, chk):
+    """main builds the extensions word from the options: a default, then `extensions |= BIT` per option.  A plain assignment
+    (`extensions = EXT_COMPATIBILITY | ..` for -c) throws away whatever was or-ed in before, so no `|=` / `&=` update may be
+    able to run before a plain assignment on any path."""
+    from .rules_mem import _reaches
+    rid = "R-OPTORDER"
+    chk.rule(rid, "in main, no plain assignment to the extensions word can run after an `|=` / `&=` update of it (the assignment "
+                  "would discard the option that update recorded)")
+    main = P.func("main", "main.c")
+    pos = main.cfg.positions()
+    n = 0
+    for var in ("extensions",):
+        plain = [x for x in main.walk() if x["k"] == "BinaryOperator" and x["op"] == "=" and key(x["c"][0]) == var and x.get("i") in pos]
+        upd = [x for x in main.walk() if x["k"] == "CompoundAssignOperator" and key(x["c"][0]) == var and x.get("i") in pos]
+        n += len(plain)
+        for a in plain:
+            # an assignment that itself reads the old value (`extensions = extensions | X`) keeps it
+            if any(y["k"] == "DeclRefExpr" and y["n"] == var for y in walk(a["c"][1])):
+                continue
+            bad = [u for u in upd if _reaches(main, pos, u, a, [])]
+            chk.obligation(rid, "%s: `%s = ..` is not preceded by an update of %s on any path" % (main.where(a), var, var), not bad)
+            if bad:
+                chk.violation(rid, "optorder:%s:%d" % (var, a["l"]), main.where(a),
+                              "main assigns `%s` at line %d after line %d has already recorded an option in it with `%s`: that "
+                              "option (e.g. -a / -r before -c) is silently dropped" % (var, a["l"], bad[0]["l"], main.src(bad[0])[:50]))
+    chk.floor(rid, n, 1, "plain assignments to the extensions word in main")
